@@ -471,7 +471,8 @@ class _VersionIndependentUnmarshaller:
         if self.version_tuple >= (3, 8):
             co_posonlyargcount = (
                 0
-                if self.magic_int in (3400, 3401, 3410, 3411)
+                # co_posonlyargcount arrived with magic 3410 (PEP 570)
+                if self.magic_int in (3400, 3401)
                 else unpack("<i", self.fp.read(4))[0]
             )
         else:
